@@ -7,6 +7,11 @@ def norm(path):
     return path.replace("rink_core::", "").replace("rink_sandbox::", "")
 
 
+# workspace dependency relation (who can name whose impls)
+DEPS = {"rink_core": (), "rink_sandbox": (), "rink": ("rink_core", "rink_sandbox"), "rink_irc": ("rink_core", "rink_sandbox"),
+        "rink_js": ("rink_core",)}
+
+
 class CallGraph:
     def __init__(self, F):
         self.F = F
@@ -37,7 +42,8 @@ class CallGraph:
                 # class-hierarchy analysis over the workspace impls of that trait method
                 name = c["path"].split("::")[-1]
                 for g in self.impls.get((norm(c["trait"]), name), []):
-                    self._add(fn.id, g.id, "cha", bb)
+                    if g.crate == fn.crate or g.crate in DEPS.get(fn.crate, ()):
+                        self._add(fn.id, g.id, "cha", bb)
             if c.get("decl_id") in F.fns:
                 # default method body of a local trait
                 self._add(fn.id, c["decl_id"], kind, bb)
